@@ -23,6 +23,16 @@ def make_jobs(prop, tier, only=None):
     snames = list(mutworker.SCALAR_DOCS)
     for i in range(0, len(snames), 2):
         jobs.append(dict(prop=prop, docs=snames[i:i + 2], scalar=True, timeout=120 if quick else 600, no_unicode_digits=quick))
+    # fully symbolic short scalar texts: every character an unconstrained code point (all texts of that length)
+    for d in ('short1', 'short2', 'short1v2', 'short2v2'):
+        jobs.append(dict(prop=prop, docs=[d], scalar=True, ops=['all'], timeout=300))
+    if not quick:
+        for d in ('short3', 'short3v2'):
+            for part in mutworker.FIRST_PARTS:
+                jobs.append(dict(prop=prop, docs=[d], scalar=True, ops=['all'], alphabet=part, timeout=1800))
+        # two adjacent symbolic characters at every position of the scalar corpus
+        for name in snames:
+            jobs.append(dict(prop=prop, docs=[name], scalar=True, ops=['replace2'], timeout=1800))
     if only:
         jobs = [j for j in jobs if only in ','.join(j['docs'])]
     return jobs
@@ -52,6 +62,10 @@ def run_mut_jobs(chk, jobs):
     seen_what = {}
     for j, res, err, wall in results:
         name = '%s:%s%s/%d+%d' % (j['prop'], ','.join(j['docs']), '(scalar)' if j.get('scalar') else '', j.get('stride', 1), j.get('phase', 0))
+        if j.get('ops') and j['ops'] != ['replace']:
+            name += '[%s]' % '+'.join(j['ops'])
+        if j.get('alphabet'):
+            name += '[c0 in %s]' % ','.join('%x-%x' % (lo, hi) for lo, hi in j['alphabet'])
         if res is None or res.get('status') == 'fault':
             chk.query(name, 'inconclusive', wall, detail=((res or {}).get('error') or err)[-500:])
             chk.fault('worker failed for %s: %s' % (name, ((res or {}).get('error') or err)[-500:]))
@@ -118,8 +132,9 @@ def run(chk):
     chk.bounds = dict(documents=sorted(mutworker.GRID_DOCS) + ['scalar:' + k for k in sorted(mutworker.SCALAR_DOCS)],
                       mutation='one symbolic code point (U+0000..U+10FFFF minus surrogates) replacing the character at position i, or inserted before position i',
                       positions='every third position (quick) / every position (thorough) of 7 grid documents (40-230 chars); every position of 17 scalar texts',
-                      nesting='lists/dicts/nested grid to depth 2')
-    chk.assumptions = ['a single mutated position per document (two-position interactions outside the claim)',
+                      nesting='lists/dicts/nested grid to depth 2',
+                      fully_symbolic='every scalar text of 1..2 (quick) / 1..3 (thorough) code points, versions 2.0 and 3.0; thorough: two adjacent symbolic characters at every position of the scalar corpus')
+    chk.assumptions = ['a single mutated position per grid document; adjacent pairs on scalars in the thorough tier only (other two-position interactions outside the claim)',
                        'over-acceptance is reported only when the independent reference rejects for a structural reason the property names: ' + ', '.join(mutworker.STRUCTURAL),
                        '(line, col) == (0, 0) is the class\'s documented "unknown position" and counts as within the text',
                        'termination: every exploration ran to completion within its time budget (the work list emptied)',
